@@ -638,6 +638,9 @@ def check_scale_guard_level(pf, eng, rep, scheme, fn_filter, rule="R-GUARD(scale
             g = args[-1]
             if mentions(lvl, lambda z: z == UNK) or mentions(g, lambda z: z == UNK):
                 rep.unresolved(rule, key, "level %s / guard context %s not resolved" % (show(lvl), show(g)), pf.loc(p, node))
+            elif __import__("re").fullmatch(r"[A-Za-z_][A-Za-z0-9_]*", show(g) or ""):
+                rep.unresolved(rule, key, "the guard's context `%s` is a parameter of this helper: the level is decided at its callers" %
+                               show(g), pf.loc(p, node))
             elif _canon_ctx(g) == _canon_level(lvl):
                 rep.ok(rule, key, "the scale is tested against the level of the result (%s)" % show(lvl), pf.loc(p, node),
                        sample={"function": p, "result_level": show(lvl), "guard_context": show(g)})
@@ -660,4 +663,50 @@ def check_scale_guard_level(pf, eng, rep, scheme, fn_filter, rule="R-GUARD(scale
                     rep.violation(rule, skey, "under %s, %s tests the bound on the scale %s but records %s on its result: a product whose "
                                   "scale no longer fits the modulus passes the test of the operand's old scale and is computed instead "
                                   "of refused" % (scheme, p, show(tested), show(rscale)), pf.loc(p, node))
+    return n
+
+
+def check_resize_guards(facts, rep, files=("src/evaluator.rs",), rule="R-METAFLOW(resize)"):
+    """R-METAFLOW(resize) [N]: the destination of an operation is brought to the result's size on every path.  A `destination.resize(
+    .., size)` that is skipped unless `destination.size() < size` (or `>`) leaves a destination that held a LARGER (smaller)
+    object at its old size: only the result's components are overwritten, the stale ones stay and the object keeps its old
+    `size` — the three-operand form then disagrees with the _new / _inplace forms for a reused destination."""
+    from facts import walk, strip, local_of, root_local, Tree
+    rep.rule(rule, "a resize of an output ciphertext / plaintext is not guarded by a one-sided comparison of its current size")
+    n = 0
+    for p in sorted(facts.hir):
+        it = facts.items[p]
+        if it["file"] not in files or "::tests::" in p:
+            continue
+        body = facts.hir[p]
+        outs = {prm["pat"]["lid"]: prm["pat"]["name"] for prm in it["params"] if prm["pat"].get("k") == "PBind" and
+                prm.get("ty", "").startswith("&mut ") and ("Ciphertext" in prm.get("ty", "") or "Plaintext" in prm.get("ty", ""))}
+        if not outs:
+            continue
+        tree = Tree(body)
+        k = 0
+        for x in walk(body):
+            if not (x.get("k") == "MCall" and x.get("name") == "resize" and (local_of(x["recv"]) or (None,))[0] in outs):
+                continue
+            dl = local_of(x["recv"])
+            for a in tree.ancestors(x):
+                if a.get("k") != "If" or not any(y is x for y in walk(a["th"])):
+                    continue
+                onesided = None
+                for c in walk(a["c"]):
+                    if c.get("k") == "Bin" and c.get("op") in ("<", ">", "<=", ">="):
+                        for me in (c["a"], c["b"]):
+                            m = strip(me)
+                            if m.get("k") == "MCall" and m.get("name") in ("size", "coeff_count", "len") and \
+                                    (root_local(m["recv"]) or (None,))[0] == dl[0]:
+                                onesided = c
+                if onesided is None:
+                    continue
+                n += 1
+                rep.fn(p)
+                rep.violation(rule, "%s/%s/resize#%d" % (p, dl[1], k), "`%s.resize(..)` runs only when its current size compares `%s` with "
+                              "the result's: a reused destination on the other side of the comparison keeps its old size and its "
+                              "stale components, so this form returns a different object than the _new / _inplace forms" %
+                              (dl[1], onesided.get("op")), facts.loc(p, x))
+                k += 1
     return n
